@@ -152,7 +152,9 @@ fn check_mapping(before: &Context, m: &MappedContext, stage: &str) -> Result<Map
             }
             for (a, b) in d1.iter().zip(d2.iter()) {
                 if is_rand_or_prf(&a.get_operation()) {
-                    if !m.mappings.contains_node(a) || m.mappings.get_node(a) != *b {
+                    // position-independent (a merge of Add(x, y) with Add(y, x) is legitimate)
+                    let _ = b;
+                    if !m.mappings.contains_node(a) || !d2.iter().any(|x| *x == m.mappings.get_node(a)) {
                         return Err(Outcome::fail(
                             "opt-random-user-rewired",
                             format!(
